@@ -275,7 +275,15 @@ func cmdCheck(args []string) int {
 			lines = append(lines, fmt.Sprintf("KNOWN-FINDING: property=%s %s (%s)", id, kf.What, name))
 			continue
 		}
-		if unsuppFn[r.ft.name] {
+		newFrameBreak := false
+		switch r.o.Kind {
+		case "extcall", "nondet", "global-read", "global-write":
+			// a call into unspecified code / a nondeterminism source / a shared package variable that the reference tree
+			// did not have at all in this function: reported even when the rest of the function no longer matches its
+			// contract (these obligations do not depend on the invariants)
+			newFrameBreak = !ledgerClass[classOfName(name)]
+		}
+		if unsuppFn[r.ft.name] && !newFrameBreak {
 			undecided = append(undecided, "obligation "+name+" (function uses constructs outside the verified subset)")
 			continue
 		}
